@@ -116,6 +116,14 @@ CHECKS = {
             "status) must match a model written from the man page, moving LBZIP2/BZIP2/BZIP tokens to the front of the "
             "command line must change nothing, and inserting the documented no-op options or --small must change nothing.",
             "Trusted: the model's reading of the man page (usage text and lbzip2.1).", "4/C22"),
+    "C14": ("exploration",
+            "exhaustive table check against a reference KMP automaton + rapidcheck-generated bit streams through lbzip2's "
+            "scan() (in-process, ASan/UBSan) against a naive matcher",
+            "All 12640 entries of the generated scanner tables are compared with an independently computed KMP automaton "
+            "of the 48-bit pattern (exhaustive). The scanning routine itself is run in-process on generated blocks (random, "
+            "planted full and partial patterns, every entry bit offset, skip distances 0-3000) and must report exactly the "
+            "first occurrence not covered by the skip distance whose 80 bits fit, at the exact bit position.",
+            "Trusted: the naive matcher; the white-box glue (inproc/glue_misc.c includes parse.c).", "4/C14"),
     "C16": ("fault_enumeration",
             "exhaustive system-call-position fault / signal injection (LD_PRELOAD shim) over FILE-operand scenarios; two-state "
             "file-system invariant as oracle",
